@@ -133,7 +133,7 @@ PROPS["C19"] = {
 import json as _json, os as _os
 _SHAPES = _json.load(open(_os.path.join(_os.path.dirname(_os.path.abspath(__file__)), "shapes.json")))
 # quick tier: the shapes of G(2,3,2,3) with the most symbolic slots and those mixing empty productions
-_QUICK_SHAPES = {"g34_a22_b1_c0", "g23_a22_b2", "g23_a21_b2", "g23_a20_b2", "g23_a2_b22", "g23_a2_b21", "g23_a2_b20",
+_QUICK_SHAPES = {"g34_a22_b1_c0", "g24_a11_b11", "g24_a21_b11", "g23_a22_b2", "g23_a21_b2", "g23_a20_b2", "g23_a2_b22", "g23_a2_b21", "g23_a2_b20",
                  "g23_a22_b0", "g23_a1_b20", "g23_a21_b1", "g23_a1_b21"}
 
 
@@ -145,7 +145,7 @@ def _c17_instances():
              f"rule={sh['rule']} len={sh['len']} ({sh['slots']} symbolic slots), token costs 1..3, unwind {sh['unwind']}")
         if tag in _QUICK_SHAPES:
             tier = "quick"
-        elif sh["domain"] == "g23":
+        elif sh["domain"] in ("g23", "g24"):
             tier = "rotate"
         else:
             tier = "thorough"
@@ -212,7 +212,8 @@ PROPS["C12"] = {
     "bounds": {
         "quick": "texts of a concrete prefix (none, '/*', '//', a quote, '{') followed by 3 characters; each "
                  "character is a free choice from the scanner's alphabet (every character its branches test plus "
-                 "a neutral one) or, in the multi-byte instances, a fixed 2-/3-byte character; start offset a "
+                 "a neutral one) or, in the multi-byte instances, a fixed 2-/3-byte character chosen as the non-ASCII "
+                 "class-mate of what the scanner tests (Unicode digits, NBSP / line separators, fullwidth colon); start offset a "
                  "free character boundary; newline flag free; parse_int additionally on 20 free decimal digits; "
                  "unwind = bytes + 2",
         "thorough": "as quick plus 4 free characters after the prefix, 5 free characters for parse_ws, 21 digits",
@@ -246,13 +247,15 @@ PROPS["C12"] = {
         I("c12::c12_action_b3", bounds="'{' + 3 free chars", termination=_SCANNERS),
         I("c12::c12_action_mb", bounds="'{' + widths [1,3,1]", termination=_SCANNERS),
         I("c12::c12_action_b4", "thorough", bounds="'{' + 4 free chars", termination=_SCANNERS),
-        I("c12::c12_eol_f3", bounds="widths [1,2,1]", termination=_SCANNERS),
+        I("c12::c12_eol_f3", bounds="widths [1,2,1], 2-byte char = NEXT LINE (U+0085)", termination=_SCANNERS),
+        I("c12::c12_eol_mb3", bounds="widths [1,3,1], 3-byte char = PARAGRAPH SEPARATOR", termination=_SCANNERS),
         I("c12::c12_eol_f4", "thorough", bounds="4 free chars", termination=_SCANNERS),
         I("c12::c12_colon_f3", bounds="3 free chars", termination=_SCANNERS),
-        I("c12::c12_colon_mb", bounds="widths [1,2,1,1]", termination=_SCANNERS),
+        I("c12::c12_colon_mb", bounds="widths [1,3,1], 3-byte char = FULLWIDTH COLON", termination=_SCANNERS),
         I("c12::c12_colon_f4", "thorough", bounds="4 free chars", termination=_SCANNERS),
         I("c12::c12_int_f3", bounds="3 free chars", termination=_SCANNERS),
-        I("c12::c12_int_mb", bounds="widths [1,1,2]", termination=_SCANNERS),
+        I("c12::c12_int_mb", bounds="widths [1,1,2], 2-byte char = ARABIC-INDIC DIGIT", termination=_SCANNERS),
+        I("c12::c12_int_mb3", bounds="widths [1,3,1], 3-byte char = FULLWIDTH DIGIT", termination=_SCANNERS),
         I("c12::c12_int_d20", bounds="20 free digits", termination=_SCANNERS),
         I("c12::c12_int_d21", "thorough", bounds="21 free digits", termination=_SCANNERS),
     ],
